@@ -115,6 +115,17 @@ CLAIMED = {
         "note": "No oracle: compares the implementations' own cost() values (C06 validates those). Coherent cost region only.",
         "technique": "bounded-exhaustive enumeration of inputs x configurations with differential (cross-algorithm) oracle",
     },
+    "C11": {
+        "category": "exploration",
+        "text": "Bounded-exhaustive round trip X.from_dict(json.loads(json.dumps(x.to_dict()))) for inputs and outputs: every output of all seven "
+                "algorithms on <=3x<=3 inputs, every valid mapping of the P-slice (quick <=3x<=3, thorough <=4x<=3) and every valid unordered / selected "
+                "ordered labelling on <=2 families, crossed with 4 naming schemes (digits, underscores, O#/S# look-alikes), a colour menu on both trees "
+                "(all subsets of <=3 object / <=2 species nodes on small trees, root and nested colours) and a float-infinite transfer cost; trees, "
+                "mappings, syntenies, flag, events, cost compared, and to_dict() of the copy reproduced verbatim on the listed fields.",
+        "design_ref": "6 (C11)",
+        "note": "Premise: unique node names. The embedded input's leaf_syntenies of an output is outside the listed fields and not compared.",
+        "technique": TECH_E2,
+    },
     "C16": {
         "category": "model_checking",
         "text": "Explicit-state BFS over all reachable states of real Entry objects and table cells (1-3 dimensional, "
